@@ -109,9 +109,15 @@ def run(tier):
     for j, src in enumerate(TYPER_GAPS):
         others.insert(0, ("gap%d" % j, src))
     impl2 = C.run_harness("tools", others, ck.work + "/others", timeout=1800)
-    impl3 = C.run_harness("tools-wasm", others[: (150 if tier == "quick" else 5000)], ck.work + "/wasm", timeout=1800)
+    # the wasm32 target: the unmutated corpus, programs whose IR mentions usize (slices of strings and
+    # arrays, lengths, size-of, indexing), and the head of the stream above
+    wasm = [("k:" + name, src) for name, src in GM.corpus()]
+    for j, (ty, val) in enumerate([("[]char8", '"hello"'), ("[]i32", "[1, 2, 3]"), ("[]u8", "[7u8]"), ("[]char8", '""')]):
+        wasm.append(("z%d" % j, "fn count(x: %s) -> usize\n{\n\treturn: |x|\n}\npub extern fn start()\n{\n\tvar n = count(%s);\n\tvar a: [4]i32 = [1, 2, 3, 4];\n\tvar i: usize = |a| - 1;\n\tvar e = a[i];\n\tvar s: usize = |:[4]i32|;\n}\n" % (ty, val)))
+    wasm += others[: (150 if tier == "quick" else 5000)]
+    impl3 = C.run_harness("tools-wasm", wasm, ck.work + "/wasm", timeout=1800)
     acc = 0
-    for label, res, srcs in (("native", impl2, others), ("wasm", impl3, others[:len(impl3)])):
+    for label, res, srcs in (("native", impl2, others), ("wasm", impl3, wasm)):
         for cid, src in srcs:
             f = res.get(cid)
             if f is None or not f[0].startswith("ok"): continue
